@@ -209,6 +209,15 @@ theorem closest_projects_on_fitted_labels {α : Type} [DecidableEq α] (near : D
   rw [hinv, hrq]
   exact b
 
+/-- The hypothesis of `closest_projects_on_fitted_labels` is met by a genuine nearest-neighbour search: for
+every distance `dist`, the model's `nearest` with "strictly closer" = smaller distance returns a key of every
+non-empty dictionary, and no key is closer to the query than the one returned (what `NearestNeighbors(1)` promises,
+up to the choice among equidistant keys, which the model fixes as the first in dictionary order). -/
+theorem closest_model_search_is_nearest {κ β : Type} (dist : κ → κ → Nat) (d : Dict κ β) (u : κ) (h : d ≠ []) :
+    nearest (fun u k best => decide (dist u k < dist u best)) d u ∈ Dict.keys d ∧
+      ∀ k ∈ Dict.keys d, dist u (nearest (fun u k best => decide (dist u k < dist u best)) d u) ≤ dist u k :=
+  ⟨nearest_mem _ d u h, nearest_min dist d u⟩
+
 /-! ### TransformedTargetClassifier2 (transformer = permutation) -/
 
 /-- `predict` returns original labels: for every inner prediction list made of codes the inner
